@@ -595,6 +595,47 @@ static std::vector<const Function*> dispatchCandidates(const CallInst* call)
     return r;
 }
 
+static unsigned ptrDiffCount = 0;
+struct LinForm
+{
+    std::map<const Value*, long> ptrs;  // pointer operand of ptrtoint -> coefficient
+    std::map<const Value*, long> ints;  // other i64 values -> coefficient
+    long c = 0;
+    unsigned sawPtr = 0;
+};
+static void linForm(const Value* v, long coef, LinForm& lf, int depth)
+{
+    if (auto* ci = dyn_cast<ConstantInt>(v))
+    {
+        lf.c += coef * ci->getSExtValue();
+        return;
+    }
+    const Value* pop = nullptr;
+    if (auto* pi = dyn_cast<PtrToIntInst>(v))
+        pop = pi->getPointerOperand();
+    else if (auto* ce = dyn_cast<ConstantExpr>(v))
+    {
+        if (ce->getOpcode() == Instruction::PtrToInt)
+            pop = ce->getOperand(0);
+    }
+    if (pop)
+    {
+        if (isa<ConstantPointerNull>(pop))
+            return;
+        lf.ptrs[pop] += coef;
+        ++lf.sawPtr;
+        return;
+    }
+    if (auto* bo = dyn_cast<BinaryOperator>(v))
+        if (depth < 6 && (bo->getOpcode() == Instruction::Add || bo->getOpcode() == Instruction::Sub))
+        {
+            linForm(bo->getOperand(0), coef, lf, depth + 1);
+            linForm(bo->getOperand(1), bo->getOpcode() == Instruction::Add ? coef : -coef, lf, depth + 1);
+            return;
+        }
+    lf.ints[v] += coef;
+}
+
 static bool typedMem = true;
 // the struct/array type T such that p (bitcasts stripped) is a T* and len == sizeof(T); nullptr otherwise
 static Type* typedPointee(const Value* p, const Value* len)
@@ -840,8 +881,41 @@ static void emitFunction(const Function& F, std::ostream& out)
                 }
                 else
                 {
-                    fc.decls << "  " << useTy(at) << " " << an << ";\n";
-                    fc.decls << "  " << tyName(t) << " " << lhs << " = &" << an << ";\n";
+                    // a scalar local that is also accessed piecewise (through casts): declare it as bytes, so that CBMC tracks
+                    // it per byte (byte_update chains on a 64-bit scalar are not constant-folded)
+                    bool piecewise = false;
+                    if (at->isIntegerTy() && at->getIntegerBitWidth() > 8)
+                        for (const User* u : ai->users())
+                        {
+                            if (auto* l = dyn_cast<LoadInst>(u))
+                            {
+                                if (l->getType() == at)
+                                    continue;
+                            }
+                            else if (auto* st2 = dyn_cast<StoreInst>(u))
+                            {
+                                if (st2->getPointerOperand() == ai && st2->getValueOperand()->getType() == at)
+                                    continue;
+                            }
+                            else if (isa<DbgInfoIntrinsic>(u))
+                                continue;
+                            else if (auto* ii = dyn_cast<IntrinsicInst>(u))
+                            {
+                                if (ii->getIntrinsicID() == Intrinsic::lifetime_start || ii->getIntrinsicID() == Intrinsic::lifetime_end)
+                                    continue;
+                            }
+                            piecewise = true;
+                        }
+                    if (piecewise)
+                    {
+                        fc.decls << "  unsigned char " << an << "[" << DL->getTypeAllocSize(at) << "] __attribute__((aligned(8)));\n";
+                        fc.decls << "  " << tyName(t) << " " << lhs << " = (" << tyName(t) << ")&" << an << "[0];\n";
+                    }
+                    else
+                    {
+                        fc.decls << "  " << useTy(at) << " " << an << ";\n";
+                        fc.decls << "  " << tyName(t) << " " << lhs << " = &" << an << ";\n";
+                    }
                 }
             }
             else if (auto* li = dyn_cast<LoadInst>(&I))
@@ -884,6 +958,56 @@ static void emitFunction(const Function& F, std::ostream& out)
                     continue;
                 }
                 unsigned w = t->getIntegerBitWidth();
+                // Pointer differences. LLVM lowers p - q to integer arithmetic on ptrtoint values and re-associates it with
+                // other terms (finish_int - (bytesLeft + start_int)); CBMC cannot cancel symbolic base addresses in such
+                // sums, so offsets derived from them stop being constants. A linear form over ptrtoint terms is recovered here
+                // and +p -q pairs are emitted as C pointer subtractions, which CBMC evaluates on offsets.
+                if ((bo->getOpcode() == Instruction::Add || bo->getOpcode() == Instruction::Sub) && w == 64)
+                {
+                    LinForm lf;
+                    linForm(bo, 1, lf, 0);
+                    unsigned plus = 0, minus = 0;
+                    for (auto& kv : lf.ptrs)
+                    {
+                        if (kv.second == 1)
+                            ++plus;
+                        else if (kv.second == -1)
+                            ++minus;
+                        else if (kv.second != 0)
+                            plus = 99;
+                    }
+                    if (lf.sawPtr >= 2 && plus == minus && plus <= 2)
+                    {
+                        std::vector<const Value*> ps, ms;
+                        for (auto& kv : lf.ptrs)
+                        {
+                            if (kv.second == 1)
+                                ps.push_back(kv.first);
+                            if (kv.second == -1)
+                                ms.push_back(kv.first);
+                        }
+                        std::string ex = "0UL";
+                        for (size_t i = 0; i < ps.size(); ++i)
+                            ex += " + (unsigned long)VP_PTRDIFF(" + valueName(ps[i], fc) + ", " + valueName(ms[i], fc) + ")";
+                        for (auto& kv : lf.ints)
+                        {
+                            if (kv.second == 0)
+                                continue;
+                            std::string v = valueName(kv.first, fc);
+                            if (kv.second == 1)
+                                ex += " + " + v;
+                            else if (kv.second == -1)
+                                ex += " - " + v;
+                            else
+                                ex += " + (unsigned long)" + std::to_string(kv.second) + "L * " + v;
+                        }
+                        if (lf.c)
+                            ex += " + (unsigned long)" + std::to_string(lf.c) + "L";
+                        os << "    " << lhs << " = " << ex << ";\n";
+                        ++ptrDiffCount;
+                        continue;
+                    }
+                }
                 switch (bo->getOpcode())
                 {
                     case Instruction::Add: e = widen(t, a, false) + " + " + widen(t, b, false); break;
